@@ -63,4 +63,9 @@ EXPLANATION = ('range validation agrees between runtimes and with the specificat
 
 
 def run(ctx):
+    # Engine M (handler mode) on the live Pinocchio handlers: locked positions cannot have liquidity removed or be re-ranged; re-ranging withdraws first, re-ranges, then adds
+    from props import pino
+    ctx.mir()
+    ctx.parallel([('pino:decrease_liquidity', pino.decrease_task('decrease_liquidity')), ('pino:decrease_liquidity_v2', pino.decrease_task('decrease_liquidity_v2')),
+                  ('pino:reposition_liquidity_v2', pino.reposition_task())], max_procs=3)
     ctx.run_kani(['c18.rs'])
